@@ -28,25 +28,18 @@ def isPureForL (rs : List String) : List Expr → Bool
   | e :: es => isPureFor rs e && isPureForL rs es
 end
 
-/-- names the compiler makes up for the bindings of evaluated given arguments: `_p…` -/
+/-- the parameters the compiler makes up for the closure of a partial application: `_r…` -/
+def isRName (x : String) : Bool :=
+  match x.toList with
+  | '_' :: 'r' :: _ => true
+  | _ => false
+
+/-- names the compiler makes up: `_p…` (bindings of evaluated given arguments) and `_r…` -/
 def isReserved (x : String) : Bool :=
   match x.toList with
   | '_' :: 'p' :: _ => true
+  | '_' :: 'r' :: _ => true
   | _ => false
-
-/-- a given argument that is bound beforehand must not be one of the forms the real emitter leaves
-inside the closure but the model does not treat as inert (a lambda, a partial application): those are
-outside the fragment -/
-def boundOK : Expr → Bool
-  | .lam _ _ => false
-  | .call _ arity args => !(args.length < arity)
-  | _ => true
-
-/-- the given arguments of a partial application under `bind`: the inert ones are not captured by the
-closure parameters, the others are of a bindable form -/
-def paOK (rs : List String) : List Expr → Bool
-  | [] => true
-  | a :: as => (if isInert a then isPureFor rs a else boundOK a) && paOK rs as
 
 mutual
 def wfE (bind : Bool) : Expr → Bool
@@ -59,7 +52,7 @@ def wfE (bind : Bool) : Expr → Bool
   | .call _ arity args =>
     wfL bind args &&
       (if args.length < arity then
-        (if bind then paOK (restNames (arity - args.length)) args
+        (if bind then true
          else isPureForL (restNames (arity - args.length)) args)
        else true)
   | .callv f args => wfE bind f && wfL bind args
@@ -110,8 +103,8 @@ def optList {α β : Type} (f : α → Option β) : List α → Option (List β)
     | some v, some vs => some (v :: vs)
     | _, _ => none
 
-/-- evaluation of the (lowered) pure given arguments of a partial application in the closure's
-environment; the fuel `k` bounds the nesting depth -/
+/-- evaluation of the (lowered) inert given arguments of a partial application in the closure's
+environment (a function literal evaluates to a closure over it); the fuel `k` bounds the nesting depth -/
 def gpureEvalN : Nat → GEnv → GExpr → Option GVal
   | 0, _, _ => none
   | _ + 1, _, .lit l => some (.fo (.lit l))
@@ -123,18 +116,29 @@ def gpureEvalN : Nat → GEnv → GExpr → Option GVal
       | some fos => (primFO p fos).map (fun r => GVal.fo r.2)
       | none => none
     | none => none
+  | _ + 1, genv, .funcLit ps b => some (.clo ps b genv)
   | _ + 1, _, _ => none
 
 mutual
 def isGPureFor (rs : List String) : GExpr → Bool
   | .lit _ => true
-  | .var x => !rs.contains x
+  | .var x => !rs.contains x && !isRName x
   | .prim p args => isSilentPrim p && isGPureForL rs args
   | _ => false
 def isGPureForL (rs : List String) : List GExpr → Bool
   | [] => true
   | e :: es => isGPureFor rs e && isGPureForL rs es
 end
+
+/-- what the closure of a partial application mentions for a given argument: a pure first-order
+expression (literal, variable, bound `_p…`, field of a variable) or a function literal (a lambda or a
+partial application of inert arguments, which only builds a closure) -/
+def isGAtom (rs : List String) : GExpr → Bool
+  | .funcLit _ _ => true
+  | e => isGPureFor rs e
+def isGAtomL (rs : List String) : List GExpr → Bool
+  | [] => true
+  | e :: es => isGAtom rs e && isGAtomL rs es
 
 mutual
 inductive VRel (bind : Bool) : SVal → GVal → Prop where
@@ -143,7 +147,7 @@ inductive VRel (bind : Bool) : SVal → GVal → Prop where
       wfB bind b = true → ERel bind env genv → VRel bind (.clo ps b env) (.clo ps (lowerB bind b) genv)
   | pap {f : String} {arity : Nat} {vs : List SVal} {ges : List GExpr} {gvs : List GVal} {genv : GEnv} :
       {k : Nat} → vs.length < arity → optList (gpureEvalN k genv) ges = some gvs → VRels bind vs gvs →
-      isGPureForL (restNames (arity - vs.length)) ges = true →
+      isGAtomL (restNames (arity - vs.length)) ges = true →
       VRel bind (.pap f arity vs)
         (.clo (restNames (arity - vs.length))
           (.mk [] (.ret (.callFn f (ges ++ (restNames (arity - vs.length)).map GExpr.var)))) genv)
